@@ -19,12 +19,16 @@ What is proved here, about the model of `broker/src/broker/channel.rs` and the c
 * credit accounting for ALL histories of sends and grants on an established channel
   (`credit_accounting`, `forwarded_le_granted`);
 * the per-request decision logic (`send_*`, `claim_*`, `close_*`, `grant_overflow`).
-Partial: that a connection's `senders`/`receivers` sets only name ends it owns (needed to rule out
-the `close`-on-closed arm during connection teardown) is covered by the correspondence runs and the
-panic oracle of the harness, not by a theorem; the client-side `Sender`/`Receiver` of the `aldrin`
-crate are not modelled.
+* for ALL histories, between two events: a claimed end is claimed by a connection that is still there and lists the
+  channel among its senders / receivers, and what a connection lists there is an end it has claimed
+  (`claimed_end_is_listed_by_its_connected_owner`, `connection_lists_only_ends_it_claimed`; the ownership invariant
+  `Lemmas/Broker/{XOwn,OwnView,OwnFrame,Own}.lean`). So the teardown of a connection closes exactly the ends it
+  holds, each of which is claimed — never the `close`-on-closed arm — and "the peer is told when the owner
+  disconnects" is the `remove_channel_end` of a claimed end.
+Partial: the client-side `Sender`/`Receiver` of the `aldrin` crate are not modelled.
 -/
 import Aldrin.Lemmas.Broker.Handlers
+import Aldrin.Lemmas.Broker.Own
 
 namespace Aldrin.Broker
 
@@ -111,6 +115,56 @@ theorem claim_sender_no_panic {c : Chan} {conn : ConnId} (h : c.OK) :
     okAnd (c.claimSender conn) (fun r => ∀ c' o cap, r = .ok (c', o, cap) → c'.OK) := claimSender_ok h
 theorem claim_receiver_no_panic {c : Chan} {conn : ConnId} {cap : Nat} (h : c.OK) :
     okAnd (c.claimReceiver conn cap) (fun r => ∀ c' o, r = .ok (c', o) → c'.OK) := claimReceiver_ok h
+
+/-- for ALL histories: an end that is claimed is claimed by a connection that is still there, and that connection
+lists the channel among its senders resp. receivers -/
+theorem claimed_end_is_listed_by_its_connected_owner (es : List Event) (b : Broker) (w : Work) (outs : List (List Out))
+    (h : run {} {} es = .ok (b, w, outs)) {ck : Cookie} {ch : Chan} (hc : AL.find? ck b.channels = some ch) :
+    (∀ o cap, ch.sender = .claimed o cap → ∃ conn, AL.find? o b.conns = some conn ∧ ck ∈ conn.senders) ∧
+    (∀ o cap, ch.receiver = .claimed o cap → ∃ conn, AL.find? o b.conns = some conn ∧ ck ∈ conn.receivers) := by
+  have hown := run_own es _ _ _ _ _ G2_init Own.init h
+  have key : ∀ (x : Hold) (o : ConnId), own ⟨b, w, []⟩ x = some o → ∃ conn, AL.find? o b.conns = some conn ∧
+      x ∈ holds (conn.senders, conn.receivers, conn.busListeners) := by
+    intro x o hx
+    rcases hown.o1 x o hx with ⟨L, hl, hm⟩ | ⟨L, hp, _⟩
+    · simp only [co, cv] at hl
+      split at hl
+      · rename_i conn hconn; simp at hl; subst hl; exact ⟨conn, hconn, hm⟩
+      · simp at hl
+    · simp at hp
+  obtain ⟨os, or⟩ := own_chan (s := ⟨b, w, []⟩) hc
+  constructor
+  · intro o cap hs
+    obtain ⟨conn, h1, h2⟩ := key (.snd, ck) o (by rw [os, hs]; rfl)
+    rw [mem_holds] at h2; simp at h2; exact ⟨conn, h1, h2⟩
+  · intro o cap hs
+    obtain ⟨conn, h1, h2⟩ := key (.rcv, ck) o (by rw [or, hs]; rfl)
+    rw [mem_holds] at h2; simp at h2; exact ⟨conn, h1, h2⟩
+
+/-- for ALL histories: what a connection lists among its senders resp. receivers is an end it has claimed -/
+theorem connection_lists_only_ends_it_claimed (es : List Event) (b : Broker) (w : Work) (outs : List (List Out))
+    (h : run {} {} es = .ok (b, w, outs)) {id : ConnId} {conn : Conn} (hc : AL.find? id b.conns = some conn) :
+    (∀ ck, ck ∈ conn.senders → ∃ ch cap, AL.find? ck b.channels = some ch ∧ ch.sender = .claimed id cap) ∧
+    (∀ ck, ck ∈ conn.receivers → ∃ ch cap, AL.find? ck b.channels = some ch ∧ ch.receiver = .claimed id cap) := by
+  have hown := run_own es _ _ _ _ _ G2_init Own.init h
+  have hco := co_find (s := ⟨b, w, []⟩) hc
+  constructor
+  · intro ck hm
+    have := hown.o2 id _ (.snd, ck) hco (by rw [mem_holds]; exact Or.inl ⟨rfl, hm⟩)
+    simp only [own] at this
+    split at this
+    · rename_i ch hch
+      cases hs : ch.sender <;> simp [hs, endOwner] at this
+      exact ⟨ch, _, hch, by rw [hs, this]⟩
+    · simp at this
+  · intro ck hm
+    have := hown.o2 id _ (.rcv, ck) hco (by rw [mem_holds]; exact Or.inr (Or.inl ⟨rfl, hm⟩))
+    simp only [own] at this
+    split at this
+    · rename_i ch hch
+      cases hs : ch.receiver <;> simp [hs, endOwner] at this
+      exact ⟨ch, _, hch, by rw [hs, this]⟩
+    · simp at this
 
 /-! non-vacuity: a concrete history that establishes a channel with capacity 5 and sends an item -/
 example : (match run {} {} [.newConn 0 20, .newConn 1 20, .msg 0 (.createChannel 1 .sender 0),
